@@ -17,6 +17,9 @@ _Bool in_ba, in_bb;
 int in_line, in_column, in_fail0, in_first_line0, in_first_col0;
 _Bool in_shadow;
 int64_t in_idx, in_len, in_cap;
+double in_fa, in_fb;
+int64_t in_start, in_length;
+uint32_t in_k;            /* ghost element index (never assigned after its choice) */
 
 /* ---- path ends ("the run ends here"): ghost flag, the status must be non-zero, optional cover points ---- */
 static void verif_run_ends(int status)
@@ -407,5 +410,139 @@ void h_acc(void)
     VERIF_COVER(in_len == 1); VERIF_COVER(in_len > 1);
 #elif !defined(VERIF_ONLY_OUT)
     VERIF_COVER(in_idx == 0); VERIF_COVER(in_idx == in_len - 1 && in_len > 1);
+#endif
+}
+
+/* ---- C03.float.<OP> / C03.mixed.<OP>: FLOAT (resp. INT and FLOAT) literal leaves of arbitrary bit pattern (NaN, +-0, inf,
+ *      subnormals) through the real eval_expression / eval_prefix_op; result == the same C double operation ---- */
+#ifndef VERIF_MIX
+#define VERIF_MIX MIX_FF
+#endif
+static void mk_float_leaf(ASTNode *n, double v) { n->type = AST_FLOAT; n->line = nondet_int(); n->column = nondet_int(); n->as.float_val = v; }
+static uint64_t dbits(double d) { return *(uint64_t *)&d; }
+
+void h_fop(void)
+{
+    in_fa = nondet_double(); in_fb = nondet_double(); in_a = nondet_i64(); in_b = nondet_i64();
+#if VERIF_MIX == MIX_FF
+    mk_float_leaf(&g_leaf0, in_fa); mk_float_leaf(&g_leaf1, in_fb);
+    const double x = in_fa, y = in_fb;
+#elif VERIF_MIX == MIX_IF
+    mk_int_leaf(&g_leaf0, in_a); mk_float_leaf(&g_leaf1, in_fb);
+    const double x = (double)in_a, y = in_fb;          /* C's usual arithmetic conversion of the int64_t operand */
+#else
+    mk_float_leaf(&g_leaf0, in_fa); mk_int_leaf(&g_leaf1, in_b);
+    const double x = in_fa, y = (double)in_b;
+#endif
+#if VERIF_EOP == EOP_DIV && VERIF_DOM == DOM_DEFINED
+    __CPROVER_assume(y != 0.0);                        /* every divisor except +0.0 / -0.0 (NaN and inf included) */
+#elif VERIF_EOP == EOP_DIV && VERIF_DOM == DOM_ZERO
+    __CPROVER_assume(y == 0.0);
+#endif
+    g_opnode.line = nondet_int(); g_opnode.column = nondet_int();
+    __verif_ev.n0 = &g_leaf0; __verif_ev.n1 = &g_leaf1;
+    Environment *env = (Environment *)nondet_ptr();
+    Value r = eval_expression(&g_opnode, env);
+    __CPROVER_assert(!__verif_ev.exited && !__verif_ev.aborted, "C03.float unreachable: path ends do not return");
+#if VERIF_EOP == EOP_ADD
+    __CPROVER_assert(EV_IS_FLOAT(r) && dbits(r.as.float_val) == dbits(x + y), "C03.float ADD == C double addition (bits)");
+#elif VERIF_EOP == EOP_SUB
+    __CPROVER_assert(EV_IS_FLOAT(r) && dbits(r.as.float_val) == dbits(x - y), "C03.float SUB == C double subtraction (bits)");
+#elif VERIF_EOP == EOP_MUL
+    __CPROVER_assert(EV_IS_FLOAT(r) && dbits(r.as.float_val) == dbits(x * y), "C03.float MUL == C double multiplication (bits)");
+#elif VERIF_EOP == EOP_DIV
+    __CPROVER_assert(EV_IS_FLOAT(r) && dbits(r.as.float_val) == dbits(x / y), "C03.float DIV == C double division (bits; x/0 is +-inf or NaN, not a fault)");
+#elif VERIF_EOP == EOP_NEG
+    __CPROVER_assert(EV_IS_FLOAT(r) && dbits(r.as.float_val) == dbits(-x), "C03.float NEG == C double negation (bits)");
+#elif VERIF_EOP == EOP_EQ
+    __CPROVER_assert(EV_IS_BOOL(r) && r.as.bool_val == (x == y), "C03.float EQ == C double ==");
+#elif VERIF_EOP == EOP_NE
+    __CPROVER_assert(EV_IS_BOOL(r) && r.as.bool_val == (x != y), "C03.float NE == C double !=");
+#elif VERIF_EOP == EOP_LT
+    __CPROVER_assert(EV_IS_BOOL(r) && r.as.bool_val == (x < y), "C03.float LT == C double <");
+#elif VERIF_EOP == EOP_LE
+    __CPROVER_assert(EV_IS_BOOL(r) && r.as.bool_val == (x <= y), "C03.float LE == C double <=");
+#elif VERIF_EOP == EOP_GT
+    __CPROVER_assert(EV_IS_BOOL(r) && r.as.bool_val == (x > y), "C03.float GT == C double >");
+#elif VERIF_EOP == EOP_GE
+    __CPROVER_assert(EV_IS_BOOL(r) && r.as.bool_val == (x >= y), "C03.float GE == C double >=");
+#endif
+    __CPROVER_assert(__verif_ev.calls0 == 1, "C03.float operand 0 is evaluated exactly once");
+#if VERIF_EOP != EOP_NEG
+    __CPROVER_assert(__verif_ev.calls1 == 1 && __verif_ev.seq0 < __verif_ev.seq1, "C03.float operand 1 is evaluated exactly once, after operand 0");
+#endif
+#if !(VERIF_EOP == EOP_DIV && VERIF_DOM == DOM_ZERO)
+    VERIF_COVER(x != x); VERIF_COVER(y != y);                 /* NaN operands */
+    VERIF_COVER(x == 0.0 && dbits(x) != 0);                   /* -0.0 */
+    VERIF_COVER(x > 1.0e308 && x == x + x);                   /* +inf */
+    VERIF_COVER(x == y); VERIF_COVER(x < y);
+    VERIF_COVER(x - y != 0.0 && x - y < 1e-9 && y - x < 1e-9);   /* distinct but closer than any tolerance */
+#else
+    VERIF_COVER(x > 0.0); VERIF_COVER(x == 0.0); VERIF_COVER(dbits(y) != 0);
+#endif
+}
+
+/* ---- C03.slice.<kind>.int: builtin_array_slice against the transcription of the compiled nl_array_slice ----
+ * B(capacity <= VERIF_SLICE_CAP): the copy loop runs once per element; start and length are arbitrary int64. */
+#ifndef VERIF_SLICE_CAP
+#define VERIF_SLICE_CAP 5
+#endif
+#ifndef VERIF_SL
+#define VERIF_SL SL_NOWRAP
+#endif
+/* allocator of the runtime's GC objects (src/runtime/gc.c is not in the unit): assumed contract = a fresh block of the size */
+void *gc_alloc(size_t size, GCObjectType type) { (void)type; return malloc(size); }
+
+void h_slice(void)
+{
+    in_start = nondet_i64(); in_length = nondet_i64(); in_len = nondet_i64(); in_cap = nondet_i64(); in_k = nondet_u32();
+#if VERIF_AK == AK_ARRAY
+    __CPROVER_assume(0 <= in_len && in_len <= in_cap && in_cap <= VERIF_SLICE_CAP);
+    g_arr.element_type = VAL_INT; g_arr.length = (int)in_len; g_arr.capacity = (int)in_cap;
+    g_arr.data = malloc((size_t)in_cap * 8); __CPROVER_assume(g_arr.data != NULL);
+    g_argv[0].type = VAL_ARRAY; g_argv[0].as.array_val = &g_arr;
+#define SRC_AT(k) (((long long *)g_arr.data)[k])
+#else
+    __CPROVER_assume(0 <= in_len && in_len <= in_cap && 1 <= in_cap && in_cap <= VERIF_SLICE_CAP);
+    g_dyn.length = in_len; g_dyn.capacity = in_cap; g_dyn.elem_type = ELEM_INT; g_dyn.elem_size = 8;
+    g_dyn.data = malloc((size_t)in_cap * 8); __CPROVER_assume(g_dyn.data != NULL);
+    g_argv[0].type = VAL_DYN_ARRAY; g_argv[0].as.dyn_array_val = &g_dyn;
+#define SRC_AT(k) (((int64_t *)g_dyn.data)[k])
+#endif
+    g_argv[1].type = VAL_INT; g_argv[1].as.int_val = in_start;
+    g_argv[2].type = VAL_INT; g_argv[2].as.int_val = in_length;
+    const int64_t s = spec_slice_start(in_start, in_len), n = spec_slice_count(in_start, in_length, in_len);
+    {   /* case split of the (start, length) plane */
+        int64_t l = in_length < 0 ? 0 : in_length;
+#if VERIF_SL == SL_NOWRAP
+        __CPROVER_assume(l <= INT64_MAX - s);
+        /* the transcription agrees with the prose spec here: count = length clamped to what remains from the clamped start */
+        __CPROVER_assert(0 <= s && s <= in_len && n == (l < in_len - s ? l : in_len - s), "C03.slice spec sanity: clamped start, count = min(length, len - start)");
+#else
+        __CPROVER_assume(l > INT64_MAX - s);
+        __CPROVER_assert(n == 0, "C03.slice spec sanity: on the wrapping domain the compiled program yields an empty slice");
+#endif
+    }
+    /* ghost element: its expected value is read BEFORE the call */
+    const _Bool k_in = (int64_t)in_k < n;
+    const int64_t want = k_in ? SRC_AT(s + in_k) : 0;
+    Value r = builtin_array_slice(g_argv);
+    __CPROVER_assert(!__verif_ev.exited && !__verif_ev.aborted, "C03.slice unreachable: path ends do not return");
+#if VERIF_AK == AK_ARRAY
+    __CPROVER_assert(r.type == VAL_ARRAY && EV_PLAIN(r) && r.as.array_val != NULL && r.as.array_val->element_type == VAL_INT, "C03.slice yields an int array");
+    __CPROVER_assert(r.as.array_val->length == n, "C03.slice result length == compiled program's length");
+    if (k_in) __CPROVER_assert(((long long *)r.as.array_val->data)[in_k] == want, "C03.slice result element k == source element start + k");
+    __CPROVER_assert(g_arr.length == in_len, "C03.slice the source array keeps its length");
+#else
+    __CPROVER_assert(r.type == VAL_DYN_ARRAY && EV_PLAIN(r) && r.as.dyn_array_val != NULL && r.as.dyn_array_val->elem_type == ELEM_INT, "C03.slice yields an int array");
+    __CPROVER_assert(r.as.dyn_array_val->length == n, "C03.slice result length == compiled program's length");
+    if (k_in) __CPROVER_assert(((int64_t *)r.as.dyn_array_val->data)[in_k] == want, "C03.slice result element k == source element start + k");
+    __CPROVER_assert(g_dyn.length == in_len, "C03.slice the source array keeps its length");
+#endif
+#if VERIF_SL == SL_NOWRAP
+    VERIF_COVER(in_start < 0 && n > 1); VERIF_COVER(in_start > in_len); VERIF_COVER(in_length < 0);
+    VERIF_COVER(n == in_len && in_len == VERIF_SLICE_CAP); VERIF_COVER(k_in && in_k > 0 && s > 0);
+#else
+    VERIF_COVER(in_len > 1 && s == 1); VERIF_COVER(s == in_len && in_len == VERIF_SLICE_CAP);
 #endif
 }
